@@ -286,6 +286,12 @@ func (w *inotify) register(path string, flags uint32, recurse bool) error {
 		}
 
 		if e, ok := w.watches.wd[uint32(wd)]; ok {
+			if e == existing {
+				// Remember everything that was asked for so far, so that
+				// it's kept when the path is added again after it came to
+				// refer to a different file.
+				e.flags = flags
+			}
 			return e, nil
 		}
 
